@@ -1,4 +1,5 @@
 import ActsModel.Model.Timeout
+import ActsModel.Lemmas.Timeout
 
 /-!
 # C19 — Timeout rules fire once, never early, and only for open tasks
@@ -300,6 +301,33 @@ theorem monitor_accepts_model (rules : List Rule) (es : List Ev) : ∀ (t : Time
         simp only [hmo, List.isEmpty_nil, Bool.not_true, Bool.and_false, Bool.false_eq_true, ↓reduceIte, List.any_nil,
           hasDup, Bool.false_and, List.nil_append]
         exact ih _ _ _ (by simp [hmo, hopen']) hf
+
+/-- **what an accepted history guarantees** (K3, every observed history, any clocks): if the specification monitor accepts the
+observations of a task that starts open with no rule fired, then over the whole history (a) no rule key fires twice, (b) every firing
+happens at a tick at which a rule with that key has reached its limit (`now - start ≥ secs·1000`: never early), and (c) nothing fires at
+the event that closes the task or at any later event. This is the soundness direction of the run-time verdict; `monitor_accepts_model`
+is the other direction. -/
+theorem accepted_history_sound (rules : List Rule) (start : Int) (obs : List ObsEv)
+    (h : monitor rules start ⟨true, []⟩ 0 obs = none) :
+    (firings obs).Nodup ∧
+    (∀ e fs, (e, fs) ∈ obs → ∀ k ∈ fs, ∃ now, e = .tick now ∧ ∃ r ∈ rules, r.on = k ∧ now - start ≥ r.secs * 1000) ∧
+    (∀ pre fs0 post, obs = pre ++ (.close, fs0) :: post → fs0 = [] ∧ firings post = []) := by
+  refine ⟨(monitor_once rules start obs _ _ h List.nodup_nil).1, monitor_never_early rules start obs _ _ h, ?_⟩
+  intro pre fs0 post heq
+  subst heq
+  exact monitor_silent_after_close rules start pre _ _ fs0 post h
+
+/-- **a due rule of an open task fires at the next tick** (K3): at every tick of an accepted history at which the task is still open,
+every rule that has reached its limit and has not fired before is among the firings of that tick -/
+theorem accepted_fires_within_one_tick (rules : List Rule) (start : Int) (m : Mon) (i : Nat) (now : Int) (fs : List String)
+    (rest : List ObsEv) (h : monitor rules start m i ((.tick now, fs) :: rest) = none) (ho : m.isOpen = true) :
+    ∀ r ∈ rules, r.on ∉ m.fired → now - start ≥ r.secs * 1000 → r.on ∈ fs :=
+  (monitor_tick_pass rules start m i now fs rest h).1.withinOneTick ho
+
+/-- non-vacuity of the two theorems above: an accepted history with a firing, and a rejected one that fires early -/
+example : monitor [⟨"2s", 2⟩, ⟨"5s", 5⟩] 1000 ⟨true, []⟩ 0 [(.tick 2999, []), (.tick 3000, ["2s"]), (.close, []), (.tick 9000, [])] = none := by
+  decide
+example : monitor [⟨"2s", 2⟩] 1000 ⟨true, []⟩ 0 [(.tick 2999, ["2s"])] = some (0, "fires-early") := by decide
 
 /-- duration parsing on samples (tests of the transcription, not the unbounded claim) -/
 example : parseLimit "2s".toList = some (2, .second) ∧ parseLimit "15m".toList = some (15, .minute) ∧
